@@ -14,7 +14,7 @@ bool, None; Enum labels are the label *string* when mapped and the int otherwise
 import sys
 from fractions import Fraction
 from .common import untag
-from .recipes import evalexpr
+from .recipes import evalexpr, is_named_pair
 
 
 class Reject(Exception):
@@ -305,6 +305,8 @@ def is_buildnone(r):
         if k == "Optional":
             return True
         return is_buildnone(r[1])
+    if k == "ProcessRotateLeft":
+        return is_buildnone(r[3])
     if k in ("Padded", "Aligned", "FixedSized", "Prefixed", "ProcessXor", "Array", "Pointer"):
         return is_buildnone(r[2])
     if k == "NullTerminated":
@@ -316,7 +318,7 @@ def is_buildnone(r):
     if k == "Switch":
         return all(is_buildnone(c) for _, c in r[2]) and (len(r) < 4 or r[3] is None or is_buildnone(r[3]))
     if k == "Select":
-        return any(is_buildnone(x if not (len(x) == 2 and not isinstance(x[0], list) and isinstance(x[1], list) and (x[0] is None or isinstance(x[0], str)) and x[0] != "name") else x[1]) for x in r[1])
+        return any(is_buildnone(x[1] if is_named_pair(x) else x) for x in r[1])
     if k in ("Enum", "FlagsEnum", "Mapping", "OneOf", "NoneOf", "ExprValidator", "GreedyRange", "RepeatUntil"):
         return is_buildnone(r[1]) if k not in ("RepeatUntil",) else is_buildnone(r[2])
     return False
@@ -397,7 +399,7 @@ def size(r, sc):
         return s // 8
     if k == "Bytewise":
         return size(a[0], sc) * 8
-    if k in ("ByteSwapped", "BitsSwapped", "ProcessXor"):
+    if k in ("ByteSwapped", "BitsSwapped", "ProcessXor", "ProcessRotateLeft"):
         return size(a[-1], sc)
     if k in ("Pointer", "Peek"):
         return 0
@@ -632,6 +634,15 @@ def enc(r, v, sc):
             return enc(a[0], v, top_scope(dict_public(sc)))
         except Reject:
             return b""
+    if k == "Select":
+        # alternatives in order; each is built on its own and contributes nothing unless it succeeds as a whole
+        for alt in a[0]:
+            alt = alt[1] if is_named_pair(alt) else alt
+            try:
+                return enc(alt, v, top_scope(dict_public(sc)))
+            except Reject:
+                continue
+        raise Reject("select", "no alternative builds the value")
     if k == "Prefixed":
         body = enc(a[1], v, sc)
         n = len(body)
@@ -695,7 +706,23 @@ def enc(r, v, sc):
             key = bytes([key])
         body = enc(a[1], v, sc)
         return bytes(b ^ key[i % len(key)] for i, b in enumerate(body))
+    if k == "ProcessRotateLeft":
+        return rotl(enc(a[2], v, sc), -ev(a[0], sc), ev(a[1], sc))
     raise ModelGap(k)
+
+
+def rotl(data, amount, group):
+    """every group of `group` bytes, read as one big-endian integer, rotated left by `amount` bits (any sign, any magnitude)"""
+    if not isinstance(group, int) or group < 1 or len(data) % group:
+        raise Reject("rotation", "group %r does not divide %d bytes" % (group, len(data)))
+    bits = 8 * group
+    s = amount % bits
+    out = bytearray()
+    for i in range(0, len(data), group):
+        x = int.from_bytes(data[i:i + group], "big")
+        x = ((x << s) | (x >> (bits - s))) & ((1 << bits) - 1)
+        out += x.to_bytes(group, "big")
+    return bytes(out)
 
 
 def dict_public(sc):
@@ -1065,6 +1092,14 @@ def dec(r, buf, pos, end, sc):
             return dec(a[0], buf, pos, end, sc)
         except Reject:
             return None, pos
+    if k == "Select":
+        for alt in a[0]:
+            alt = alt[1] if is_named_pair(alt) else alt
+            try:
+                return dec(alt, buf, pos, end, sc)
+            except Reject:
+                continue
+        raise Reject("select", "no alternative parses")
     if k == "Prefixed":
         n, pos = dec(a[0], buf, pos, end, sc)
         if len(a) > 2 and a[2]:
@@ -1133,6 +1168,10 @@ def dec(r, buf, pos, end, sc):
         v, used = dec(a[0], bytes(bits), 0, len(bits), sc)
         if used % 8:
             raise ModelGap("unaligned bit region")
+        if used != len(bits) and "GreedyRange" in repr(a[0]):
+            # a repeated bit field that stops in front of bits too few for another element: the streaming implementation
+            # has already pulled those bytes in and refuses to drop them, the pre-read one leaves them - not modelled
+            raise ModelGap("bit region ends inside a partial repeated element")
         return v, pos + used // 8
     if k == "Bytewise":
         # inner consumes bytes re-assembled from the bit stream: decode greedily what is available
@@ -1156,6 +1195,10 @@ def dec(r, buf, pos, end, sc):
             key = bytes([key])
         data = bytes(b ^ key[i % len(key)] for i, b in enumerate(buf[pos:end]))
         v, _ = dec(a[1], data, 0, len(data), sc)
+        return v, end
+    if k == "ProcessRotateLeft":
+        data = rotl(buf[pos:end], ev(a[0], sc), ev(a[1], sc))
+        v, _ = dec(a[2], data, 0, len(data), sc)
         return v, end
     raise ModelGap(k)
 
@@ -1196,4 +1239,6 @@ def selftest():
     r = ["Bitwise", ["Struct", [["a", ["BitsInteger", 3, False, False]], ["b", ["BitsInteger", 13, True, False]]]]]
     assert enc(r, {"a": 5, "b": -1}, top_scope({})) == bytes([0b10111111, 0xff])
     assert dec(r, bytes([0b10111111, 0xff]), 0, 2, top_scope({}))[0] == {"a": 5, "b": -1}
+    # rotation: 0x81 rotl 1 = 0x03 ; bytes a b c as one 24-bit number rotated by 8 = b c a ; by -8 = c a b ; amount taken modulo the width
+    assert rotl(b"\x81", 1, 1) == b"\x03" and rotl(b"abc", 8, 3) == b"bca" and rotl(b"abc", -8, 3) == b"cab" and rotl(b"abcxyz", 32, 3) == b"bcayzx" and rotl(b"\x80\x01", 1, 2) == b"\x00\x03"
     return True
